@@ -1,15 +1,28 @@
-// C13 recorder (V): free-running, jittered executions of Semaphore / Mutex / Lock / Condition under the documented
-// protocol; the hook-event log is validated by spec/Trace_SyncPrims.tla.  A lost post or signal shows up as a hang
-// (the run is under a time limit) or as an unexplainable log.
+// C13 recorder (V): free-running, jittered executions of Semaphore / Mutex / Lock / Condition / Atomic under the documented
+// protocol, including the timed and non-blocking variants (wait(timeout), trywait, value, trylock, Condition::wait(timeout));
+// the event log is validated by spec/Trace_SyncPrims.tla.  A lost post or signal shows up as a hang (the run is under a
+// time limit) or as an unexplainable log.  Calls that have no hook inside the library are bracketed by recorder events:
+// a "begin" event before the call, an "end" event after it returned (kinds 106..132, see Trace_SyncPrims.tla).
 #include <asl/Thread.h>
 #include <asl/Mutex.h>
 #include <asl/Queue.h>
 #include <signal.h>
+#include <time.h>
 #include "vsched.h"
 #include "vrec.h"
 
 using namespace asl;
 using namespace vrec;
+
+#define EV(kind, obj, val) vsched::hook(kind, obj, (long)(val))
+
+static inline void tick(struct timespec& t) { clock_gettime(CLOCK_MONOTONIC, &t); }
+static inline long usSince(const struct timespec& t0)
+{
+	struct timespec t1;
+	clock_gettime(CLOCK_MONOTONIC, &t1);
+	return (long)(t1.tv_sec - t0.tv_sec) * 1000000L + (t1.tv_nsec - t0.tv_nsec) / 1000;
+}
 
 struct Shared
 {
@@ -32,10 +45,14 @@ struct Producer : public Thread
 			{
 				int item = id * 100000 + i + k;
 				vsched::hook(103, 0, item);
-				Lock _(s->mutex);
-				s->queue.put(item);
+				{
+					Lock _(s->mutex);
+					s->queue.put(item);
+				}
+				EV(114, &s->mutex, 0);
 			}
 			if (b == 1) s->sem.post(); else s->sem.post(b);
+			EV(106, &s->sem, b);
 			i += b;
 		}
 	}
@@ -55,6 +72,7 @@ struct Consumer : public Thread
 				Lock _(s->mutex);
 				item = s->queue.get();
 			}
+			EV(114, &s->mutex, 0);
 			vsched::hook(104, 0, item);
 		}
 	}
@@ -102,16 +120,416 @@ static void condScenario(Rng& rng)
 				while (!cs.flag) cs.cond.wait();
 				cs.woken++;
 				cs.mutex.unlock();
+				EV(114, &cs.mutex, 0);
 			});
 		if (rng.chance(50)) usleep(rng.below(300));
 		cs.mutex.lock();
 		cs.flag = true;
 		cs.cond.signal();
 		cs.mutex.unlock();
+		EV(114, &cs.mutex, 0);
 		for (int i = 0; i < nw; i++) { ws[i]->join(); delete ws[i]; }
 		if (cs.woken != nw) { fprintf(stderr, "VREC-FAIL: %d of %d waiters proceeded\n", cs.woken, nw); exit(3); }
 	}
 	vsched::hook(105, 0, 0);
+}
+
+// ---- timed and non-blocking variants -----------------------------------------------------------------------------
+// Semaphore::wait(timeout), trywait(), value(): producers with pauses (so that time-outs do occur), consumers that block,
+// wait with a time-out or poll; an observer reads value().  Every call is bracketed: 110/111 (v = time-out ms | 2*ms+result),
+// 112/113 (value), 106 after post() returned.
+struct TProducer : public Thread
+{
+	Shared* s;
+	int id, n, burst, gapUs;
+	uint64_t seed;
+	void run()
+	{
+		Rng r(seed);
+		for (int i = 0; i < n;)
+		{
+			if (gapUs && r.chance(40)) usleep(r.below(gapUs));
+			int b = burst > 1 && i + burst <= n ? burst : 1;
+			for (int k = 0; k < b; k++)
+			{
+				int item = id * 100000 + i + k;
+				EV(103, 0, item);
+				{
+					Lock _(s->mutex);
+					s->queue.put(item);
+				}
+				EV(114, &s->mutex, 0);
+			}
+			if (b == 1) s->sem.post(); else s->sem.post(b);
+			EV(106, &s->sem, b);
+			i += b;
+		}
+	}
+};
+
+struct TConsumer : public Thread
+{
+	Shared* s;
+	int n, mode, timeoutMs; // mode 0 wait(), 1 wait(timeout), 2 trywait()
+	uint64_t seed;
+	long fails;
+	void run()
+	{
+		Rng r(seed);
+		fails = 0;
+		for (int i = 0; i < n; i++)
+		{
+			if (mode == 0) s->sem.wait();
+			else
+				for (;;)
+				{
+					long w = mode == 1 ? timeoutMs : 0;
+					struct timespec t0;
+					EV(110, &s->sem, w);
+					tick(t0);
+					bool ok = mode == 1 ? s->sem.wait(w * 0.001) : s->sem.trywait();
+					long ms = usSince(t0) / 1000;
+					EV(111, &s->sem, 2 * ms + (ok ? 1 : 0));
+					if (ok) break;
+					fails++;
+					if (mode == 2) usleep(r.range(50, 600));
+				}
+			int item;
+			{
+				Lock _(s->mutex);
+				item = s->queue.get();
+			}
+			EV(114, &s->mutex, 0);
+			EV(104, 0, item);
+		}
+	}
+};
+
+struct ValueObserver : public Thread
+{
+	Shared* s;
+	volatile bool stop;
+	void run()
+	{
+		while (!stop)
+		{
+			EV(112, &s->sem, 0);
+			int v = s->sem.value();
+			EV(113, &s->sem, v);
+			usleep(150);
+		}
+	}
+};
+
+static void semTimedScenario(Rng& rng)
+{
+	int np = rng.range(1, 3), nc = rng.range(1, 4), per = rng.range(1, 12) * nc;
+	int initial = rng.chance(30) ? rng.range(1, 3) * nc : 0; // items already published when the semaphore is created
+	Shared sh(initial);
+	EV(101, &sh.sem, initial);
+	for (int k = 0; k < initial; k++)
+	{
+		int item = 9 * 100000 + k;
+		EV(103, 0, item);
+		{
+			Lock _(sh.mutex);
+			sh.queue.put(item);
+		}
+		EV(114, &sh.mutex, 0);
+	}
+	// quiescent: value() is exact, a non-blocking wait on an empty semaphore fails, on a posted one succeeds
+	EV(112, &sh.sem, 0);
+	int v0 = sh.sem.value();
+	EV(113, &sh.sem, v0);
+	if (initial == 0)
+	{
+		EV(110, &sh.sem, 0);
+		bool ok = sh.sem.trywait();
+		EV(111, &sh.sem, ok ? 1 : 0);
+		struct timespec t0;
+		EV(110, &sh.sem, 4);
+		tick(t0);
+		ok = sh.sem.wait(0.004);
+		EV(111, &sh.sem, 2 * (usSince(t0) / 1000) + (ok ? 1 : 0));
+	}
+	TProducer p[3];
+	TConsumer c[4];
+	ValueObserver ob;
+	ob.s = &sh;
+	ob.stop = false;
+	for (int i = 0; i < np; i++)
+	{
+		p[i].s = &sh; p[i].id = i + 1; p[i].n = per; p[i].burst = rng.chance(30) ? rng.range(2, 4) : 1;
+		p[i].gapUs = rng.chance(70) ? rng.range(200, 3000) : 0; p[i].seed = rng.next();
+	}
+	for (int i = 0; i < nc; i++)
+	{
+		c[i].s = &sh; c[i].n = (np * per + initial) / nc; c[i].mode = rng.below(3); c[i].timeoutMs = rng.range(3, 6); c[i].seed = rng.next();
+	}
+	bool observe = rng.chance(60);
+	if (observe) ob.start();
+	bool consFirst = rng.chance(50);
+	if (consFirst) for (int i = 0; i < nc; i++) c[i].start();
+	for (int i = 0; i < np; i++) p[i].start();
+	if (!consFirst) for (int i = 0; i < nc; i++) c[i].start();
+	for (int i = 0; i < np; i++) p[i].join();
+	for (int i = 0; i < nc; i++) c[i].join();
+	ob.stop = true;
+	if (observe) ob.join();
+	EV(112, &sh.sem, 0);
+	int v1 = sh.sem.value(); // quiescent again: exact
+	EV(113, &sh.sem, v1);
+	EV(105, 0, 0);
+}
+
+// Mutex lock / Lock scope / trylock around a plain (non-atomic) counter: 119 logs the value read inside the critical
+// section, 117/118 bracket trylock, 114 follows every completed unlock / closed Lock scope.
+struct MShared
+{
+	Mutex m[2];
+	volatile long cnt[2];
+	MShared() { cnt[0] = cnt[1] = 0; }
+};
+static void criticalSection(MShared* s, int j, Rng& r)
+{
+	long v = s->cnt[j];
+	EV(119, &s->m[j], v);
+	if (r.chance(10)) sched_yield();
+	s->cnt[j] = v + 1;
+}
+struct MWorker : public Thread
+{
+	MShared* s;
+	int n;
+	uint64_t seed;
+	void run()
+	{
+		Rng r(seed);
+		for (int i = 0; i < n; i++)
+		{
+			int j = r.below(2), mode = r.below(3);
+			Mutex& m = s->m[j];
+			if (mode == 0)
+			{
+				{
+					Lock _(m);
+					criticalSection(s, j, r);
+				}
+				EV(114, &m, 0);
+			}
+			else if (mode == 1)
+			{
+				m.lock();
+				criticalSection(s, j, r);
+				m.unlock();
+				EV(114, &m, 0);
+			}
+			else
+			{
+				EV(117, &m, 0);
+				bool ok = m.trylock();
+				EV(118, &m, ok ? 1 : 0);
+				if (ok)
+				{
+					criticalSection(s, j, r);
+					m.unlock();
+					EV(114, &m, 0);
+				}
+			}
+			if (r.chance(20)) usleep(r.below(200));
+		}
+	}
+};
+static void mutexScenario(Rng& rng)
+{
+	MShared sh;
+	// alone: trylock on a free mutex succeeds, on a mutex held (by this thread, it is not recursive) fails
+	for (int j = 0; j < 2; j++)
+	{
+		Mutex& m = sh.m[j];
+		EV(117, &m, 0);
+		bool ok = m.trylock();
+		EV(118, &m, ok ? 1 : 0);
+		if (ok)
+		{
+			criticalSection(&sh, j, rng);
+			EV(117, &m, 0);
+			bool again = m.trylock();
+			EV(118, &m, again ? 1 : 0);
+			m.unlock();
+			EV(114, &m, 0);
+			if (again) { m.unlock(); } // (a recursive success would be rejected by the trace specification)
+		}
+	}
+	int nt = rng.range(2, 5);
+	MWorker w[5];
+	for (int i = 0; i < nt; i++) { w[i].s = &sh; w[i].n = rng.range(20, 120); w[i].seed = rng.next(); w[i].start(); }
+	for (int i = 0; i < nt; i++) w[i].join();
+	EV(105, 0, 0);
+}
+
+// Condition::wait(timeout) in the documented loop; the signaller sometimes comes late so that waits do time out.
+static void condTimedScenario(Rng& rng)
+{
+	int rounds = rng.range(1, 6), nw = rng.range(1, 3);
+	for (int r = 0; r < rounds; r++)
+	{
+		CondShared cs;
+		EV(102, &cs.cond, vsched::indexOf(&cs.mutex));
+		Array<Thread*> ws;
+		for (int i = 0; i < nw; i++)
+		{
+			int w = rng.chance(30) ? rng.range(25, 40) : rng.range(1, 4); // long time-outs end by the signal, short ones mostly expire
+			bool timed = rng.chance(75);
+			ws << new Thread([&cs, w, timed]() {
+				cs.mutex.lock();
+				while (!cs.flag)
+				{
+					if (!timed) { cs.cond.wait(); continue; }
+					struct timespec t0;
+					EV(115, &cs.cond, w);
+					tick(t0);
+					bool timedOut = cs.cond.wait(w * 0.001);
+					EV(116, &cs.cond, 2 * (usSince(t0) / 1000) + (timedOut ? 1 : 0));
+				}
+				cs.woken++;
+				cs.mutex.unlock();
+				EV(114, &cs.mutex, 0);
+			});
+		}
+		if (rng.chance(70)) usleep(rng.below(7000));
+		cs.mutex.lock();
+		cs.flag = true;
+		cs.cond.signal();
+		cs.mutex.unlock();
+		EV(114, &cs.mutex, 0);
+		for (int i = 0; i < nw; i++) { ws[i]->join(); delete ws[i]; }
+		if (cs.woken != nw) { fprintf(stderr, "VREC-FAIL: %d of %d waiters proceeded\n", cs.woken, nw); exit(3); }
+	}
+	EV(105, 0, 0);
+}
+
+// Atomic<T> with a Condition bound to the Atomic's own mutex (the documented "Lock _(atomic); *atomic ..." form), plus
+// synchronized ++ on a second Atomic whose results must be 1..n (109).
+static void atomicCondScenario(Rng& rng)
+{
+	Atomic<int> level(0), tickets(0);
+	Condition cond;
+	cond.use(level);
+	EV(102, &cond, vsched::indexOf(&level.mutex()));
+	int ninc = rng.range(1, 3), per = rng.range(2, 15), nw = rng.range(1, 3), total = ninc * per;
+	Array<Thread*> ts;
+	volatile int woken = 0;
+	for (int i = 0; i < nw; i++)
+	{
+		int target = rng.range(1, total);
+		ts << new Thread([&level, &cond, &woken, target]() {
+			{
+				Lock _(level);
+				while (*level < target) cond.wait();
+				woken++;
+			}
+			EV(114, &level.mutex(), 0);
+		});
+	}
+	for (int i = 0; i < ninc; i++)
+		ts << new Thread([&level, &tickets, &cond, per]() {
+			for (int k = 0; k < per; k++)
+			{
+				{
+					Lock _(level.mutex());
+					++*level;
+					cond.signal();
+				}
+				EV(114, &level.mutex(), 0);
+				int v = ++tickets;
+				EV(114, &tickets.mutex(), 0);
+				EV(109, &tickets, v);
+				int seen = ~level; // synchronized read
+				EV(114, &level.mutex(), 0);
+				if (seen < 1) { fprintf(stderr, "VREC-FAIL: Atomic read %d after an increment\n", seen); exit(3); }
+			}
+		});
+	for (int i = 0; i < ts.length(); i++) { ts[i]->join(); delete ts[i]; }
+	if (woken != nw || *level != total) { fprintf(stderr, "VREC-FAIL: atomic/condition: %d of %d waiters, level %d of %d\n", (int)woken, nw, *level, total); exit(3); }
+	EV(105, 0, 0);
+}
+
+// A signal handler (installed without SA_RESTART) interrupts threads that are blocked in Semaphore::wait() /
+// wait(timeout) while nothing has been posted: the wait must not return (SyncPrims Interrupt is a no-op).
+// Hazard InterruptedSemWait.
+static void onUsr1(int) {}
+struct IConsumer : public Thread
+{
+	Semaphore* sem;
+	int n, timeoutMs; // timeoutMs 0: blocking
+	volatile pthread_t self;
+	volatile bool up;
+	void run()
+	{
+		self = pthread_self();
+		up = true;
+		for (int i = 0; i < n; i++)
+		{
+			if (timeoutMs == 0) { sem->wait(); continue; }
+			for (;;)
+			{
+				struct timespec t0;
+				EV(110, sem, timeoutMs);
+				tick(t0);
+				bool ok = sem->wait(timeoutMs * 0.001);
+				EV(111, sem, 2 * (usSince(t0) / 1000) + (ok ? 1 : 0));
+				if (ok) break;
+			}
+		}
+	}
+};
+static void interruptScenario(Rng& rng)
+{
+	struct sigaction sa, old;
+	memset(&sa, 0, sizeof sa);
+	sa.sa_handler = onUsr1; // no SA_RESTART
+	sigaction(SIGUSR1, &sa, &old);
+	Semaphore sem;
+	EV(101, &sem, 0);
+	int nc = rng.range(1, 3), per = rng.range(1, 4);
+	IConsumer c[3];
+	for (int i = 0; i < nc; i++) { c[i].sem = &sem; c[i].n = per; c[i].timeoutMs = rng.chance(35) ? rng.range(20, 40) : 0; c[i].up = false; c[i].start(); }
+	for (int i = 0; i < nc; i++) while (!c[i].up) sched_yield();
+	for (int round = 0; round < nc * per; round++)
+	{
+		int kicks = rng.range(1, 4);
+		for (int k = 0; k < kicks; k++)
+		{
+			usleep(rng.range(300, 1500));
+			for (int i = 0; i < nc; i++) { EV(132, &sem, i); pthread_kill(c[i].self, SIGUSR1); }
+		}
+		usleep(rng.range(100, 600));
+		sem.post();
+		EV(106, &sem, 1);
+	}
+	for (int i = 0; i < nc; i++) c[i].join();
+	sigaction(SIGUSR1, &old, 0);
+	EV(112, &sem, 0);
+	int v = sem.value();
+	EV(113, &sem, v);
+	EV(105, 0, 0);
+}
+
+// sleep(double) lasts at least as long as asked; numProcessors() is positive.
+static void helperScenario(Rng& rng)
+{
+	for (int i = 0; i < 3; i++)
+	{
+		int tenths = rng.range(1, 40); // 0.1 .. 4 ms
+		struct timespec t0;
+		EV(129, 0, tenths);
+		tick(t0);
+		asl::sleep(tenths * 0.0001);
+		EV(130, 0, usSince(t0) / 100);
+	}
+	EV(131, 0, Thread::numProcessors());
+	EV(105, 0, 0);
 }
 
 // start/join/finished() under scheduling noise, hooks silent (the window between pthread_create() and the creator's next
@@ -211,7 +629,15 @@ int main(int argc, char** argv)
 			continue;
 		}
 		vsched::beginFree(rng.next(), rng.range(0, 60));
-		if (rng.chance(65)) semScenario(rng); else condScenario(rng);
+		int pick = rng.below(100);
+		if (pick < 25) semScenario(rng);
+		else if (pick < 37) condScenario(rng);
+		else if (pick < 57) semTimedScenario(rng);
+		else if (pick < 70) mutexScenario(rng);
+		else if (pick < 80) condTimedScenario(rng);
+		else if (pick < 90) atomicCondScenario(rng);
+		else if (pick < 97) { if (!args.avoid.count("InterruptedSemWait")) interruptScenario(rng); else semTimedScenario(rng); }
+		else helperScenario(rng);
 		vsched::end();
 		fprintf(f, "{\"k\":0,\"t\":0,\"o\":0,\"v\":0}\n");
 		vsched::dumpLog(f);
